@@ -186,16 +186,20 @@ pub fn add_belt<C>(cfg: &mut Cfg)
 where
     C: FullCipher + BlockSizeUser<BlockSize = U16>,
 {
+    // BeltCtrCore is not Clone today; if it ever becomes Clone (see `clone_probe!` in the
+    // instantiation crates) the C16 monitors pick it up
+    let wrapper_clone = lookup_clone::<cipher::StreamCipherCoreWrapper<belt_ctr::BeltCtrCore<C>>>().0.is_some();
+    let core_clone = lookup_clone::<belt_ctr::BeltCtrCore<C>>().0.is_some();
     cfg.streams.push(StreamDesc {
         flavor: Flavor::Belt,
         mk: mk_stream_seek_noclone::<belt_ctr::BeltCtrCore<C>>,
         mk_at: Some(mk_stream_at_noclone::<belt_ctr::BeltCtrCore<C>>),
-        cloneable: false,
+        cloneable: wrapper_clone,
     });
     cfg.cores.push(CoreDesc {
         flavor: Flavor::Belt,
         mk: mk_core_seek_noclone::<belt_ctr::BeltCtrCore<C>>,
-        cloneable: false,
+        cloneable: core_clone,
     });
 }
 pub fn add_belt_enc<C>(cfg: &mut Cfg)
